@@ -98,6 +98,10 @@ func (fx *Fx) collectWrites(nodes []ast.Node, st *State) *writeSet {
 						if fn, ok := sel.Obj().(*types.Func); ok && strings.HasPrefix(fn.FullName(), "(*bufio.Scanner).") {
 							ws.scanner = true
 						}
+						// strings.Builder is modelled by its content: its mutating methods write the receiver
+						if fn, ok := sel.Obj().(*types.Func); ok && strings.HasPrefix(fn.FullName(), "(*strings.Builder).") && fn.Name() != "String" && fn.Name() != "Len" {
+							addLHS(se.X)
+						}
 					}
 				}
 				// closure called by name: scan its body too
@@ -377,6 +381,16 @@ func (fx *Fx) checkInvariants(st *State, ls *LoopSpec, ord int, kind string) {
 	}
 }
 
+func (fx *Fx) checkSteps(st *State, ls *LoopSpec, ord int) {
+	if ls == nil || st.iterHead == nil {
+		return
+	}
+	for _, sc := range ls.Steps {
+		g := fx.specEval(st, fx.pkg, nil, nil, sc.Expr)
+		fx.oblige(st, "step", fmt.Sprintf("loop%d:%s", ord, sc.Label), g, sc.Text)
+	}
+}
+
 func (fx *Fx) assumeInvariants(st *State, ls *LoopSpec) {
 	if ls == nil {
 		return
@@ -409,10 +423,25 @@ func (fx *Fx) execFor(st *State, x *ast.ForStmt, label string) []Outcome {
 				continue
 			}
 			if !br.truth {
+				if br.st.loopExit == nil {
+					br.st.loopExit = map[int]*State{}
+				}
+				snap := br.st.clone()
+				snap.loopExit = nil
+				br.st.loopExit[ord] = snap
 				outs = append(outs, Outcome{st: br.st, kind: kNormal})
 				continue
 			}
-			for _, o := range fx.exec(br.st, x.Body) {
+			savedHead := br.st.iterHead
+			br.st.iterHead = br.st.clone()
+			bodyOuts := fx.exec(br.st, x.Body)
+			for _, o := range bodyOuts {
+				if o.kind != kPanic {
+					fx.checkSteps(o.st, ls, ord)
+				}
+				o.st.iterHead = savedHead
+			}
+			for _, o := range bodyOuts {
 				switch {
 				case o.kind == kNormal || (o.kind == kContinue && (o.label == "" || o.label == label)):
 					posts := normal(o.st)
